@@ -245,7 +245,8 @@ class C14(Prop):
             "nodes, few-cell Delaunay triangulations of random points (unbalanced partitions), structured "
             "tetrahedral grids and sheared extruded triangle grids (prisms: 3- and 4-node faces), thorough: also 3x3x2..4x3x3 Cartesian; random anisotropic tensors and mixed "
             "boundary conditions; kinds: bookkeeping of subproblems(k=1..8) and of "
-            "cell_ind_for_partial_update (cells/faces/nodes, single and combined), split "
+            "cell_ind_for_partial_update (cells/faces/nodes, single and combined; directed: sheared "
+            "prism grids with node sets holding exactly 3 of the 4 nodes of a quadrilateral face), split "
             "discretisation, partial discretisation, update after parameter change through discretize(update_discretization=True) "
             "and through the method update_discretization (modified cells and faces), inverter "
             "backends. Non-trivial = more than one subproblem or a proper active set.")
@@ -289,9 +290,21 @@ class C14(Prop):
     def generate(self, rng, n, tier):
         kinds = ["book_sub", "book_active", "split", "partial", "book_sub", "book_active",
                  "split", "partial", "update", "inverter", "split", "book_active",
-                 "update_method", "update_method"]
+                 "update_method", "update_method", "dir_partial", "dir_active"]
         for i in range(n):
             kind = kinds[i % len(kinds)]
+            if kind in ("dir_partial", "dir_active"):
+                # directed stream: sheared prism grid (triangular AND quadrilateral faces),
+                # node set containing exactly 3 of the 4 nodes of some quadrilateral face
+                disc = rng.choice(["mpfa", "mpfa", "mpsa"])
+                nxy = [1, 1] if disc == "mpsa" else [rng.randint(1, 2), rng.randint(1, 2)]
+                yield {"kind": "partial" if kind == "dir_partial" else "book_active",
+                       "grid": {"type": "prism", "n": nxy + [rng.randint(1, 2)], "shear": 0.45,
+                                "perturb": 0, "pseed": 0},
+                       "dseed": rng.randrange(10**6), "disc": disc,
+                       "spec": {"quad3": [rng.random(), rng.random(),
+                                          [rng.random() for _ in range(rng.randint(0, 6))]]}}
+                continue
             case = {"kind": kind, "grid": self._grid(rng, tier, small=kind in ("inverter",)),
                     "dseed": rng.randrange(10**6)}
             if kind in ("split", "partial", "update", "inverter", "update_method"):
@@ -322,6 +335,19 @@ class C14(Prop):
     def _pick(g, spec):
         """Index sets from fractions in [0,1) (so that they are valid on any grid)."""
         size = {"cells": g.num_cells, "faces": g.num_faces, "nodes": g.num_nodes}
+        if "quad3" in spec:
+            # three of the four nodes of a quadrilateral face, plus other nodes (never the fourth)
+            rf, rd, others = spec["quad3"]
+            fn = g.face_nodes.tocsc()
+            cnt = np.diff(fn.indptr)
+            quads = np.where(cnt == 4)[0]
+            if quads.size == 0:
+                quads = np.arange(g.num_faces)
+            f = int(quads[int(rf * quads.size)])
+            nodes = [int(x) for x in fn.indices[fn.indptr[f]:fn.indptr[f + 1]]]
+            dropped = nodes.pop(int(rd * len(nodes)))
+            extra = {int(x * g.num_nodes) for x in others} - {dropped}
+            return {"cells": None, "faces": None, "nodes": sorted(set(nodes) | extra)}
         out = {}
         for m in ("cells", "faces", "nodes"):
             if m in spec:
